@@ -9,6 +9,14 @@ OptsFull == {[hf |-> h, df |-> d, skip |-> s] : h \in {1, 2, Big}, d \in {1, 2, 
 OptsTeeth == {[hf |-> h, df |-> Big, skip |-> {}] : h \in {1, 2}}
 OptsAS   == {[hf |-> h, df |-> d, skip |-> {}] : h \in {1, 2}, d \in {1, Big}}
 
+K(a, b) == <<a, b>>
+C(S) == [k \in Keys |-> IF k \in S THEN 1 ELSE 0]
+\* genesis contents: full node below an extension / below a full root, with a sibling leaf, all four keys
+InitA == {[n \in Names |-> C(S)] : S \in {{K(0,0), K(0,1), K(1,0)}, {K(0,0), K(0,1)}, {K(0,0), K(0,1), K(1,0), K(1,1)}}}
+InitA1 == {[n \in Names |-> C({K(0,0), K(0,1), K(1,0)})]}
+InitAll == {[n \in Names |-> C(S)] : S \in SUBSET Keys}
+InitAS == {[n \in Names |-> IF n = "a" THEN C({K(0,0), K(1,0)}) ELSE C(S)] : S \in {{K(0,0), K(0,1), K(1,0)}, {}}}
+
 \* ---- deliberately broken variants (MC_NodeStore_teeth_*.cfg): each must violate an invariant
 MutRootFromDedup(n) == TRUE                       \* root of a main trie may be served from the deduped space
 MutCkptSkips(v, bmaj) == v.maj <= bmaj            \* checkpoint version filter >= turned into >
